@@ -71,6 +71,10 @@ def cases(tier, seed):
                             out.append((version, action, rq[1], rs[1], "fit"))
                     except Exception:  # noqa: BLE001 - a data type that refuses a schema-valid value: the exchange below reports it
                         out.append((version, action, rq[1], rs[1], "fit"))
+                if pi in (0, 4):
+                    # enumerated values given as members of the library's enumerations (RegistrationStatus.accepted), nested
+                    # values as data-type objects: the wire and the handler see the plain strings
+                    out.append((version, action, rq[1], rs[1], "enums"))
                 if pi == 0:
                     # the instance with every optional: also as plain dicts that hold data-type objects deeper inside
                     # (only where that differs from plain dicts, i.e. the classes nest at least two levels)
